@@ -284,7 +284,7 @@ def transpile_structure(
             else:
                 parameter_total += 1
                 function_parameters += (
-                    f"VAR_{re.sub('[^A-z0-9_]', '', parameter)} ="
+                    f"VAR_{re.sub('[^A-Za-z0-9_]', '', parameter)} ="
                     + "pop(arg_stack, 1, ctx=ctx)\n"
                 )
 
